@@ -1,7 +1,7 @@
 """Obligations for C05."""
 from oblib import ob
 
-BOUNDS = {"quick": "", "thorough": ""}
+BOUNDS = {'quick': 'Inside: a Decoder with buffer capacity 2, 3, 4, 8 (and the default 64) over a reader whose first 2-9 Read sizes are chosen by the solver (0..min(len(p),rest), never two empty reads in a row, optional EOF together with the last bytes; later reads deliver one byte), inputs = 2-3 fully symbolic bytes and templates up to 18 bytes with symbolic holes ([1,"?"], {"?":[?]} 3, 1{"a?":{, 1{"ab":{, 1 {"a":{"?":tru), 2-3 calls each chosen by the solver from ReadToken/ReadValue/SkipValue/PeekKind, compared call by call with a buffer-mode decoder over the whole input; one transient read error at a solver-chosen Read (ReadToken/ReadValue only); the resumption contract of ConsumeStringResumable / ConsumeNumberResumable for every cut point of templates incl. surrogate pairs. Outside: longer inputs and call sequences, more than one fault, typed UnmarshalRead/UnmarshalDecode (C03 route covers UnmarshalRead into any).', 'thorough': 'Same families (the thorough tier currently equals the quick tier plus more resumption templates).'}
 ASSUMPTIONS = []
 
 
